@@ -22,6 +22,10 @@ fn main() {
                 }
             }
         }
+        Some("wrappers") => {
+            let _orig = vx::common::mute_stderr();
+            println!("{}", vx::wrappers::run());
+        }
         Some("atomic-diff") => {
             let _orig = vx::common::mute_stderr();
             let i: usize = args[2].parse().unwrap();
